@@ -354,8 +354,11 @@ type server struct {
 	fw       *faultWriter
 	mark     int
 	gaveUp   bool
-	wmu      sync.Mutex  // one writer at a time on the server-to-client stream (the real encoderMutex)
-	nWritten int         // completed writes
+	wmu      sync.Mutex // one writer at a time on the server-to-client stream (the real encoderMutex)
+	nWritten int        // completed writes
+	nWs1     int        // v1 work-starts read
+	nDone1   int        // v1 work-dones written
+	v1strict bool
 	reports  chan []byte // queued complaints (the real workDone channel), nil when not modelled
 	stop     chan struct{}
 }
@@ -369,6 +372,9 @@ func (s *server) write(w *faultWriter, op, run string, b []byte) {
 	_, _ = w.Write(b)
 	s.mu.Lock()
 	s.nWritten++
+	if op == "done1" {
+		s.nDone1++
+	}
 	s.mu.Unlock()
 }
 
@@ -477,6 +483,14 @@ func (s *server) readLoop(r io.Reader, closeRead func()) {
 		}
 		done := s.gotDone
 		s.mu.Unlock()
+		if kind == "ws1" && s.v1strict {
+			// a v1 plugin runs one step at a time: no further read before this step's result is written
+			s.mu.Lock()
+			s.nWs1++
+			n := s.nWs1
+			s.mu.Unlock()
+			s.waitUntil(func() bool { return s.nDone1 >= n }, time.Now().Add(20*time.Second))
+		}
 		if done {
 			// like the real server: stop reading, close the input
 			closeRead()
@@ -697,6 +711,7 @@ func runJob(job atpcs.Job) (res atpcs.JobResult) {
 	srv := &server{rec: rec, ws: map[string]bool{}, wsn: map[string]int{}, giveUp: timeout / 3, fw: fw}
 	srv.cond = sync.NewCond(&srv.mu)
 	srv.stop = make(chan struct{})
+	srv.v1strict = job.Session.V1Strict
 	if job.Session.Backpressure > 0 {
 		srv.reports = make(chan []byte, job.Session.Backpressure)
 		go srv.reporter(fw)
@@ -1235,6 +1250,9 @@ func runJob(job atpcs.Job) (res atpcs.JobResult) {
 			continue
 		}
 		key := atp.VerifPayloadKey(x.res.OutputID, x.res.OutputData)
+		if verdict == "hang" {
+			continue // calls released by the teardown are not part of the recorded history
+		}
 		if !intact[x.run+"\x00"+key] && !(viaV1[x.g] && intact["\x00v1\x00"+key]) {
 			problem(prop, "Execute reported success without a frame that strictly decodes as a work-done message of its run: "+key, x.run)
 			setVerdict("fabricated")
